@@ -30,7 +30,7 @@ ASSUMPTIONS = [
     "(every second filling), RADIUS Request Authenticator (state 'signed')",
     "DHCPv4 bytes reach the repository's handler through github.com/insomniacslk/dhcp's decoder (as in production); an input that library rejects counts as 'error'",
     "NoHang budget: 50 ms + 50 ms per KiB of input, wall clock inside the child process around the call; an overrun counts only if it recurs in three isolated re-measurements "
-    "in fresh processes; a child that makes no progress for 8 s is killed and the input re-measured the same way",
+    "in fresh processes; a child that makes no progress for 4 s is killed and the input re-measured the same way",
     "a child process that dies is attributed to the input logged last; the input is re-run alone in a fresh process, and if it does not die again the six previous inputs of "
     "that shard are tried (a goroutine left behind by an earlier input); an unattributable death is exit 2",
     "the concretiser's layout arithmetic is checked against the specification's (total length, declared lengths) on the canonical filling of every layout",
@@ -43,7 +43,7 @@ EXPLANATION = ("WireGrammar.tla transcribes the case analysis of every listed wi
 
 
 def _cfg_impl(coverage):
-    return ('SPECIFICATION Spec\nCONSTANT Watch = {%s}\nCONSTANT CheckCoverage = %s\nINVARIANTS Report TypeOK\nVIEW View\nCHECK_DEADLOCK FALSE\n'
+    return ('SPECIFICATION Spec\nCONSTANTS Depth = 0  Sibs = 0  Wide = 0  WideDepth = 0  ComboBelow = 0\nCONSTANT Watch = {%s}\nCONSTANT CheckCoverage = %s\nINVARIANTS Report TypeOK\nVIEW View\nCHECK_DEADLOCK FALSE\n'
             % (", ".join('"%s"' % c for c in WATCH), "TRUE" if coverage else "FALSE"))
 
 
@@ -94,7 +94,7 @@ def _groups(results, viols):
             clause = "NoHang" if w["outcome"] == "slow" else "NoPanic"
             if clause not in v["clauses"]:
                 continue
-            key = (w["ep"], clause, w["site"] or w["msg"][:80])
+            key = (w["ep"], clause, w["site"] or ("" if clause == "NoHang" else w["msg"][:80]))
             g = groups.setdefault(key, dict(ep=w["ep"], clause=clause, site=w["site"], witness=w, classes=set(), states=set(), events=0))
             g["events"] += 1
             g["classes"].add(w["class"])
@@ -212,7 +212,7 @@ def _run(prop, tier, seed, replay, work, t0):
         rule="one evaluation = one byte string delivered to one real decoder/handler on a fresh object; one trace = one event (entry point, protocol state, abstract frame) -> worst outcome "
              "over its fillings, judged by TLC; non-trivial = the outcome is not 'ok' (the input was rejected, panicked, killed the process or overran the budget), distinct by "
              "(entry point, state, abstract frame, outcome)",
-        abstract_frames=frames_n, design_runs=design, clauses_watched=WATCH, corpus=stats, samples=stats.get("samples", [])[:5],
+        abstract_frames=frames_n, design_runs=design, clauses_watched=WATCH, corpus=stats, samples=(stats.get("samples") or [])[:5],
         tlc_impl_states=res["distinct"], tlc_impl_transitions=res["generated"],
         violating_events=len(viols), violation_groups=len(groups), known_findings_hit=sorted(seen), new_violations=len(new), exhaustive=False,
         explanation=EXPLANATION)
@@ -235,8 +235,8 @@ MANIFEST = {"C09": dict(
          "listed format (PPPoE header/tags, PPP LCP/IPCP/IPv6CP packets and options, PAP/CHAP, LCP echo, DHCPv4 option 82, DHCPv6 message/IA_NA/IA_PD/IAADDR/IAPREFIX nesting, RADIUS CoA header and "
          "attributes, HA sync JSON/SSE, FTP/SIP ALG lines, ZTP option 43, short hardware addresses) as abstract frames; TLC enumerates all of them within the bounds (nesting 2 quick / 3 thorough, "
          "2-3 siblings, one deviation or one truncation per frame, thorough also deviation x truncation and parent/child pairs) and checks the class list complete for the safe-slice predicate at "
-         "every level; every frame is concretised (1 quick / 2 thorough fillings) and delivered to every listed entry point in every listed protocol state on the real code, plus random byte "
-         "strings and mutants per entry point (quick ~10^5 inputs, thorough ~10^6); TLC judges every (entry point, state, abstract frame) -> outcome event against NoPanic / NoHang and checks "
+         "every level; every frame is concretised (2 quick / 3 thorough fillings, the first canonical) and delivered to every listed entry point in every listed protocol state on the real code, plus random byte "
+         "strings and mutants per entry point (quick ~1.5*10^5 inputs, thorough ~2*10^6); TLC judges every (entry point, state, abstract frame) -> outcome event against NoPanic / NoHang and checks "
          "that every enumerated frame was executed.",
     technique="TLA+ wire grammar -> TLC enumeration as test generator -> execution on the real decoders/handlers in child processes (inputs logged before delivery) -> TLC monitor on the outcomes + coverage clause",
     note="exploration, not a proof over all byte strings: a panic that needs a specific payload byte value outside the grammar's classes is out of reach; DHCPv4 wire decoding is the third-party "
